@@ -417,3 +417,175 @@ Proof.
   intros Hcap Hc Happ E Hx. apply to_app_transparent in E; try assumption.
   rewrite Hx in E. cbn [app] in E. eauto.
 Qed.
+
+(** * Completeness: readers that keep reading get everything
+
+    "If both sides keep the connection open the whole stream arrives": when
+    every reader on the way issues enough Reads with non-empty buffers (as
+    many as there are bytes is always enough: each such Read takes at least
+    one byte that is owed), nothing is left in flight. *)
+
+Lemma breads_drain cap : forall ms b chunks e b2,
+  0 < cap -> binv cap b -> Forall (fun m => 0 < m) ms ->
+  (length (remaining b) <= length ms)%nat ->
+  breads cap ms b = (chunks, e, b2) -> remaining b2 = [].
+Proof.
+  induction ms as [|m ms IH]; intros b chunks e b2 Hcap Hinv Hms Hlen; cbn [breads].
+  - intros [= <- <- <-]. cbn [length] in Hlen. destruct (remaining b); [reflexivity|cbn in Hlen; lia].
+  - inversion Hms as [|? ? Hm Hms']; subst.
+    destruct (bread cap m b) as [[got e1] b1] eqn:E1.
+    destruct (bread_spec cap m b got e1 b1 Hcap Hinv E1) as (Hrem & Hinv1 & _ & He1 & Hprog).
+    destruct e1 as [e1|].
+    + intros [= <- <- <-]. destruct He1 as [|(_ & -> & Hr)]; [discriminate|].
+      rewrite Hr in Hrem. cbn [app] in Hrem. exact Hrem.
+    + destruct (breads cap ms b1) as [[l e2] b3] eqn:E2. intros [= <- <- <-].
+      eapply IH; [exact Hcap|exact Hinv1|exact Hms'| |exact E2].
+      destruct (remaining b) as [|x r] eqn:Er.
+      * apply app_eq_nil in Hrem as [_ ->]. cbn. lia.
+      * destruct (Hprog Hm ltac:(discriminate)) as [Hg _].
+        rewrite <- Hrem, app_length in Hlen. destruct got; [contradiction|].
+        cbn [length] in Hlen. lia.
+Qed.
+
+Lemma side_reads_drain : forall ms ks s outs e s',
+  Forall (fun m => 0 < m) ms -> (length (owed s) <= length ms)%nat ->
+  side_reads ms ks s = (outs, e, s') -> owed_after e s' = [].
+Proof.
+  induction ms as [|m ms IH]; intros ks s outs e s' Hms Hlen; cbn [side_reads].
+  - intros [= <- <- <-]. cbn [owed_after length] in *. destruct (owed s); [reflexivity|cbn in Hlen; lia].
+  - inversion Hms as [|? ? Hm Hms']; subst.
+    destruct (side_read m ks s) as [[[got e1] s1] ks1] eqn:E1.
+    destruct (side_read_spec m ks s got e1 s1 ks1 Hm E1) as [_ H1].
+    destruct e1; try (intros [= <- <- <-]; reflexivity).
+    destruct (side_reads ms ks1 s1) as [[l e2] s2] eqn:E2. intros [= <- <- <-].
+    eapply IH; [exact Hms'| |exact E2].
+    destruct H1 as [Hg Ho]. rewrite <- Ho, app_length in Hlen.
+    destruct got; [contradiction|]. cbn [length] in Hlen. lia.
+Qed.
+
+Lemma pipe_read_nonempty m p got p' :
+  Forall (fun w => w <> []) p -> pipe_read m p = Some (got, p') -> Forall (fun w => w <> []) p'.
+Proof.
+  unfold pipe_read. destruct p as [|w r]; [discriminate|]. intros Hp.
+  inversion Hp as [|? ? Hw Hr]; subst.
+  destruct (skipn _ w) as [|y rest] eqn:Es; intros [= <- <-]; [assumption|].
+  constructor; [discriminate|assumption].
+Qed.
+
+Lemma pipe_reads_drain : forall ms p outs p',
+  Forall (fun m => 0 < m) ms -> Forall (fun w => w <> []) p ->
+  (length (concat p) <= length ms)%nat ->
+  pipe_reads ms p = (outs, p') -> p' = [].
+Proof.
+  induction ms as [|m ms IH]; intros p outs p' Hms Hp Hlen; cbn [pipe_reads].
+  - intros [= <- <-]. destruct p as [|w r]; [reflexivity|].
+    inversion Hp as [|? ? Hw _]; subst. cbn [concat length] in Hlen.
+    rewrite app_length in Hlen. destruct w; [contradiction|cbn in Hlen; lia].
+  - inversion Hms as [|? ? Hm Hms']; subst.
+    destruct p as [|w r].
+    + cbn [pipe_read]. now intros [= <- <-].
+    + inversion Hp as [|? ? Hw Hr]; subst.
+      destruct (pipe_read_progress m w r Hm Hw) as (got & p1 & E1 & Hg). rewrite E1.
+      destruct (pipe_reads ms p1) as [l p2] eqn:E2. intros [= <- <-].
+      eapply IH; [exact Hms'|exact (pipe_read_nonempty m (w :: r) got p1 Hp E1)| |exact E2].
+      apply pipe_read_spec in E1 as [Hc _]. rewrite <- Hc, app_length in Hlen.
+      destruct got; [contradiction|]. cbn [length] in Hlen. lia.
+Qed.
+
+Lemma tunnel_reads_drain alloc_max max_read : 0 < max_read -> forall olds p outs p',
+  Forall (fun old => old <> []) olds -> Forall (fun w => w <> []) p ->
+  (length (concat p) <= length olds)%nat ->
+  tunnel_reads alloc_max max_read olds p = (outs, p') -> p' = [].
+Proof.
+  intros Hmr. induction olds as [|old olds IH]; intros p outs p' Ho Hp Hlen; cbn [tunnel_reads].
+  - intros [= <- <-]. destruct p as [|w r]; [reflexivity|].
+    inversion Hp as [|? ? Hw _]; subst. cbn [concat length] in Hlen.
+    rewrite app_length in Hlen. destruct w; [contradiction|cbn in Hlen; lia].
+  - inversion Ho as [|? ? Hold Ho']; subst.
+    destruct p as [|w r].
+    + unfold tunnel_read. cbn [pipe_read]. now intros [= <- <-].
+    + inversion Hp as [|? ? Hw Hr]; subst.
+      assert (Hsz : 0 < N.min (lenN old) max_read).
+      { unfold lenN. destruct old; [contradiction|cbn [length]; lia]. }
+      destruct (pipe_read_progress _ w r Hsz Hw) as (got & p1 & E1 & Hg).
+      destruct (tunnel_read alloc_max max_read old (w :: r)) as [res|] eqn:Et.
+      2:{ unfold tunnel_read in Et. rewrite E1 in Et.
+          destruct (lenN old <? lenN got); discriminate. }
+      destruct (tunnel_read_spec _ _ _ _ _ Et) as (data & p1' & -> & Hpr & _).
+      rewrite E1 in Hpr. injection Hpr as <- <-.
+      destruct (tunnel_reads alloc_max max_read olds p1) as [l p2] eqn:E2. intros [= <- <-].
+      eapply IH; [exact Ho'|exact (pipe_read_nonempty _ (w :: r) got p1 Hp E1)| |exact E2].
+      apply pipe_read_spec in E1 as [Hc _]. rewrite <- Hc, app_length in Hlen.
+      destruct got; [contradiction|]. cbn [length] in Hlen. lia.
+Qed.
+
+Lemma filter_nonempty_all (l : list bytes) : Forall (fun w => w <> []) (filter nonempty l).
+Proof.
+  induction l as [|x l IH]; [constructor|]. cbn [filter].
+  destruct x; cbn [nonempty]; [assumption|]. constructor; [discriminate|assumption].
+Qed.
+
+(** Client to application: with enough Reads everywhere, everything the
+    client wrote arrives, in both mechanisms. *)
+Theorem to_app_complete m cap chunk sc stream :
+  5 <= cap -> 0 < chunk ->
+  Forall (fun x => 0 < x) (sc_copy sc) -> Forall (fun x => 0 < x) (sc_app sc) ->
+  (length stream <= length (sc_copy sc))%nat -> (length stream <= length (sc_app sc))%nat ->
+  exists outs, to_app m cap chunk sc stream = (outs, []) /\ concat outs = stream.
+Proof.
+  intros Hcap Hc Hcopy Happ Hl1 Hl2.
+  destruct (to_app m cap chunk sc stream) as [outs left] eqn:E.
+  pose proof (to_app_transparent m cap chunk sc stream outs left Hcap Hc Happ E) as Ht.
+  assert (Hleft : left = []).
+  { unfold to_app in E.
+    destruct (sniff_then_reads cap stream (sc_tcp sc) (sc_copy sc) Hcap)
+      as (b1 & Hs & _ & Hinv1 & Hrem1 & Hreads).
+    rewrite Hs in E.
+    destruct (breads cap (sc_copy sc) b1) as [[copied e1] b2] eqn:Eb.
+    destruct (Hreads _ _ _ eq_refl) as [Hcopied _].
+    assert (Hb2 : remaining b2 = []).
+    { eapply (breads_drain cap (sc_copy sc) b1); [lia|exact Hinv1|exact Hcopy| |exact Eb].
+      now rewrite Hrem1. }
+    rewrite Hb2, app_nil_r in Hcopied.
+    destruct m.
+    - destruct (pipe_reads (sc_app sc) (filter nonempty copied)) as [o p'] eqn:Ep.
+      injection E as <- <-. rewrite Hb2, app_nil_r.
+      erewrite (pipe_reads_drain (sc_app sc) (filter nonempty copied) o p'); try eassumption;
+        [reflexivity|apply filter_nonempty_all|].
+      now rewrite concat_filter_nonempty, Hcopied.
+    - destruct (side_reads (sc_app sc) (sc_ws sc) (mkS None (side_writes chunk copied)))
+        as [[o e2] s'] eqn:Es.
+      injection E as <- <-. rewrite Hb2, app_nil_r.
+      eapply side_reads_drain; [exact Happ| |exact Es].
+      unfold owed. cbn [s_cur s_in app].
+      rewrite <- (app_nil_r (side_writes chunk copied)), bin_prefix_side_writes by assumption.
+      cbn [bin_prefix]. now rewrite app_nil_r, Hcopied. }
+  subst left. rewrite app_nil_r in Ht. eauto.
+Qed.
+
+(** Application to client. *)
+Theorem to_client_complete m alloc_max max_read chunk sc ws :
+  0 < chunk -> 0 < max_read ->
+  Forall (fun x => 0 < x) (sc_copy sc) -> Forall (fun old => old <> []) (sc_bufs sc) ->
+  (length (concat ws) <= length (sc_copy sc))%nat -> (length (concat ws) <= length (sc_bufs sc))%nat ->
+  exists outs, to_client m alloc_max max_read chunk sc ws = (outs, []) /\ concat outs = concat ws.
+Proof.
+  intros Hc Hmr Hcopy Hbufs Hl1 Hl2.
+  destruct (to_client m alloc_max max_read chunk sc ws) as [outs left] eqn:E.
+  pose proof (to_client_transparent m alloc_max max_read chunk sc ws outs left Hc Hcopy E) as Ht.
+  assert (Hleft : left = []).
+  { unfold to_client in E. destruct m.
+    - destruct (tunnel_reads alloc_max max_read (sc_bufs sc) (filter nonempty ws)) as [copied p'] eqn:Et.
+      injection E as <- <-.
+      erewrite (tunnel_reads_drain alloc_max max_read Hmr (sc_bufs sc) (filter nonempty ws) copied p');
+        try eassumption; [reflexivity|apply filter_nonempty_all|].
+      now rewrite concat_filter_nonempty.
+    - destruct (side_reads (sc_copy sc) (sc_ws sc) (mkS None (side_writes chunk ws)))
+        as [[copied e] s'] eqn:Es.
+      injection E as <- <-.
+      eapply side_reads_drain; [exact Hcopy| |exact Es].
+      unfold owed. cbn [s_cur s_in app].
+      rewrite <- (app_nil_r (side_writes chunk ws)), bin_prefix_side_writes by assumption.
+      cbn [bin_prefix]. now rewrite app_nil_r. }
+  subst left. rewrite app_nil_r in Ht. eauto.
+Qed.
